@@ -218,7 +218,7 @@ pub fn make_url(operation: &Operation) -> TokenStream {
         }
     } else {
         static FIX_PLACEHOLDERS: OnceLock<regex::Regex> = OnceLock::new();
-        let fix = FIX_PLACEHOLDERS.get_or_init(|| regex::Regex::new("\\{([_\\w]+)\\}").unwrap());
+        let fix = FIX_PLACEHOLDERS.get_or_init(|| regex::Regex::new("\\{([^{}]+)\\}").unwrap());
         let inputs = inputs.into_iter().map(|input| {
             let name = input.name.to_rust_ident();
             quote! { #name = self.params.#name }
